@@ -4,7 +4,7 @@ ID = "C06"
 HARNESS_BIN = "c06"
 DRIVER = "fvd_c06"
 DRIVER_TAKES_ANSWER = True
-LEAN_TARGETS = ["FalconProofs.Props.C06", "fvd_c06"]
+LEAN_TARGETS = ["FalconProofs.Props.C06", "FalconProofs.Props.C06Asm", "fvd_c06"]
 PROPS_MODULE = "FalconProofs.Props.C06"
 LEVEL = "translation_validation"
 RULE = ("random machine-code programs from built-in mini-assemblers (MIPS/MIPSEL: addiu addu lw sw beq bne blez bgtz bltz bgez b j jr; "
@@ -19,7 +19,10 @@ TRUSTED = [
     "harness/src/bin/c06.rs (mini-assemblers, oracle dump), lean/Drivers/C06.lean",
 ]
 ASSUMPTIONS = [
-    "per-program validation over generated programs and states, not a proof over all programs: the assembly algorithm itself is not modelled",
+    "execution clause: per-program validation over generated programs and states, not a proof over all programs",
+    "assembly algorithm: modelled (FalconModel/Assemble.lean on top of the C15 CfgEdit model) and proved well formed / entry / "
+    "each-address-once / merge-language-preserving for all inputs (Props/C06Asm.lean); tied to the code by exact equality of "
+    "`assemble . discover` with falcon's recovered function on every generated program (verdict asm-mismatch = broken)",
     "runs are compared on address trace and, when both terminate within the bound, on the final registers, memory window and next pc",
 ]
 
